@@ -88,6 +88,21 @@ def rule_R3(sig_contract, body, fired):
     return req, body
 
 
+def rule_R4(body, fired):
+    """nested `const _: () = { .. };` items inside a fn body (derive's compile-time index checks) are removed."""
+    rx = re.compile(r'const\s+_\s*:\s*\(\s*\)\s*=\s*\{')
+    while True:
+        m = rx.search(body)
+        if not m:
+            return body
+        bo = m.end() - 1
+        bc = match_close(body, bo)
+        tail = re.match(r'\s*;', body[bc + 1:])
+        end = bc + 1 + (tail.end() if tail else 0)
+        body = body[:m.start()] + body[end:]
+        fired.append('R4')
+
+
 def rule_R10(text, fired):
     t = text
     # expansions of vec![] forms
@@ -95,6 +110,8 @@ def rule_R10(text, fired):
     t2 = t2.replace('crate::alloc::vec::Vec', 'Vec')
     t2 = re.sub(r'\bmem::size_of::<', 'core::mem::size_of::<', t2)
     t2 = t2.replace('core::core::mem::', 'core::mem::')
+    t2 = t2.replace('::parity_scale_codec::alloc::vec::Vec', 'Vec')
+    t2 = t2.replace('::parity_scale_codec::', '')
     if t2 != t:
         fired.append('R10')
     return t2
@@ -154,6 +171,7 @@ def strip_attrs(text):
 class Gen:
     def __init__(self, src, config):
         self.src = src
+        self.sources = {'': src}
         self.config = config
         self.out = []           # output lines
         self.meta = {'fns': [], 'modules': {}, 'assumed': [], 'lemmas': []}
@@ -177,7 +195,14 @@ class Gen:
             raise TemplateError('bad path in //@fn: ' + head)
         mod, header, name = parts
         header = None if header == '-' else header
-        it = self.src.find_fn(mod, header, name)
+        src = self.src
+        if mod.startswith('@'):
+            sname, _, mod = mod[1:].partition(' ')
+            mod = mod.strip()
+            if sname not in self.sources:
+                raise TemplateError('unknown source @%s' % sname)
+            src = self.sources[sname]
+        it = src.find_fn(mod, header, name)
         self._emit_fn(oid, it, lines, anchor=path)
 
     def do_slice(self, head, lines):
@@ -284,8 +309,10 @@ class Gen:
             rtype, where = (rest, '') if wh is None else (rest[:wh].strip(), ' ' + rest[wh:])
             sig = sig[:pos] + '-> (%s: %s)' % (retname, rtype) + where
             fired.append('R12')
+        sig = sig.replace('::parity_scale_codec::alloc::vec::Vec', 'Vec').replace('::parity_scale_codec::', '')
         if body is not None and 'decl' not in flags and 'external_body' not in flags:
             body = strip_attrs(body)
+            body = rule_R4(body, fired)
             req, body = rule_R3(sig, body, fired)
             if req:
                 contract = ['requires ' + ', '.join(req) + ','] + self._merge_requires(contract)
@@ -524,16 +551,23 @@ class Gen:
             i += 1
 
 
-def generate(expanded_path, templates, out_rs, out_meta, flags=()):
+def generate(expanded_path, templates, out_rs, out_meta, flags=(), extra_sources=None, extra=None):
     src = Source(open(expanded_path).read())
     g = Gen(src, {'flags': list(flags)})
+    for k, pth in (extra_sources or {}).items():
+        g.sources[k] = Source(open(pth).read())
+    g.extra = extra or {}
     for t in templates:
         if t.endswith('.py'):
             import importlib.util
             sp = importlib.util.spec_from_file_location('tmpl_' + os.path.basename(t)[:-3], t)
             m = importlib.util.module_from_spec(sp)
             sp.loader.exec_module(m)
-            g.process(m.template(src, list(flags)), os.path.basename(t))
+            import inspect
+            if len(inspect.signature(m.template).parameters) >= 3:
+                g.process(m.template(src, list(flags), g), os.path.basename(t))
+            else:
+                g.process(m.template(src, list(flags)), os.path.basename(t))
         else:
             g.process(open(t).read(), os.path.basename(t))
     text = '\n'.join(g.out) + '\n'
